@@ -1254,6 +1254,9 @@ class NPShim:
 class NLAShim:
     LinAlgError = LinAlgError
 
+    def __getattr__(self, name):
+        raise Undecided(f"numpy.linalg.{name} is not modelled in the dimension-generic engine")
+
     @staticmethod
     def cholesky(x):
         if not isinstance(x, NCArr):
@@ -1342,6 +1345,22 @@ class SLAShim:
     @staticmethod
     def block_diag(*a):
         raise Undecided("block_diag on symbolic blocks (block classes are decided by Engine B at fixed shapes)")
+
+    @staticmethod
+    def cho_solve(c_and_lower, b, overwrite_b=False, check_finite=True):
+        """scipy's convention: solves (c c^T) x = b for lower=True and (c^T c) x = b for lower=False, reading only the named triangle of c"""
+        c, lower = c_and_lower
+        if not isinstance(c, NCArr) or not isinstance(b, NCArr):
+            raise Undecided("cho_solve with non-symbolic operands")
+        p = nf(c.p)
+        if _structure(p) not in ("lower" if lower else "upper", "diag"):
+            p = NPShim._tri(NCArr(p, 2), bool(lower)).p
+        a = p * p.T() if lower else p.T() * p
+        return NCArr(inverse(a, "Cholesky-factored matrix is non-singular") * b.p, b.ndim)
+
+    def __getattr__(self, name):
+        # a scipy.linalg routine this engine has no model of: the obligation is undecided, never a violation
+        raise Undecided(f"scipy.linalg.{name} is not modelled in the dimension-generic engine")
 
 
 import contextlib
